@@ -27,6 +27,26 @@ Workloads
             fragments (FIRST, INTERMEDIATE*, LAST; UNCHANGED; COMPLETE after a partial train; LAST without
             FIRST; a second train; trains for two handles and several data kinds interleaved, sets removed or
             enabled mid-train): each command answered exactly once under its own opcode, later commands served
+  advstate  commands of the stateful families (extended / legacy / periodic advertising, scanning, connection creation and
+            its cancellation, filter accept list, CIG / CIS / BIG / ISO data path, per-connection commands) issued in
+            states where a precondition is missing: LE Set Extended Advertising Enable for a set without address (own
+            address type RANDOM, no random address), without parameters, removed, unknown, enabled already, two sets
+            in one command; disable / remove of unknown sets; legacy enable without parameters, twice, disable when
+            idle; cancel with nothing pending; objects that do not exist. One controller capability bit removed per
+            case. Every command answered once under its own opcode, later commands served (also after the advertising
+            timers ran), PENDING answers concluded
+  hist      pending procedures followed through HISTORIES, one capability (le_features bit / supported command) removed
+            on either controller: features - LE Read Remote Features, LE Enable Encryption, LE Subrate Request (...)
+            issued by the CENTRAL and by the PERIPHERAL of a connection, again after disconnection and reconnection
+            (same or swapped roles), finally with the ACL connection going away while the request is unanswered;
+            cis - one CIS handle created, accepted, disconnected (by either side, or with its ACL), created again,
+            and the ACL lost (by either side) before the peer's host answered: every LE Create CIS accepted as
+            pending is concluded by an LE CIS Established event for that handle (error status without the peer);
+            acl - LE (Extended) Create Connection by raw commands: created, disconnected by either side, created
+            again towards a silent peer and cancelled, created again when the peer advertises (late);
+            classic - BR/EDR remote feature / name / version reads and role switches by the initiator and by the
+            acceptor, again after reconnection in the same or the other direction, finally a feature read whose
+            request is lost while the ACL connection goes away
 """
 from __future__ import annotations
 
@@ -40,7 +60,8 @@ from vlib.result import R
 
 ID = 'C03'
 LEVEL = 'exploration'
-RULE = ('cig: one per (configuration history, CIS subsets, command grouping); train: one per (data kinds, handles, '
+RULE = ('advstate: one per (set states, command sequence); hist: one per (family, role, removed capability, history, fault); '
+        'cig: one per (configuration history, CIS subsets, command grouping); train: one per (data kinds, handles, '
         'operation sequences, interleaving); sweep: one case per (command class | unregistered opcode, controller state, parameter seed), non-trivial = '
         'the controller produced or should have produced a reply, distinct = (opcode, state, parameter bytes); host: '
         'one per (task count, command mix, delay); proc: one per (procedure, scenario)')
@@ -52,6 +73,15 @@ ASSUMPTIONS = [
     'cig: LE Set CIG Parameters is only repeated while no CIS of that CIG was created (the CIG is configurable); the '
     'peripheral hosts accept every CIS request; a refused LE Create CIS (non-PENDING status) needs no completion',
     'train: only the answers are judged (one per command, own opcode, later commands served), not the stored data',
+    'advstate: only the answers are judged (which status a command gets in a state where its precondition is missing is '
+    'not); a legacy advertiser enabled before LE Set Advertising Parameters advertises with a zero interval in the virtual '
+    'controller and keeps the link busy: it is disabled again by the next command and quiescence is bounded there',
+    'hist: the peer host answers CIS requests unless the scenario says it does not; a reduced capability set is one bit of '
+    'Controller.le_features or one entry of Controller.supported_commands removed before the host is powered on; in the '
+    'mid-procedure fault the LL feature request is lost on the air (the peer controller never sees it) and the ACL connection '
+    'is then ended by a Disconnect of either host; a completion event must name the connection handle of its command; '
+    'commands that every controller must implement (Reset, Read Buffer Size, Read BD_ADDR, Set Event Mask, ...) are never '
+    'removed from a capability set; a BR/EDR connection request is always answered by the peer host',
 ]
 MIN_EVENTS = {
     'quick': {'commands_swept': 2000, 'distinct_opcodes_swept': 200, 'pending_procedures_followed': 100,
@@ -59,13 +89,31 @@ MIN_EVENTS = {
               'cig_histories': 250, 'cis_handles_followed': 400, 'cis_created_after_reconfiguration': 100,
               'cis_created_after_remove_and_reconfiguration': 15, 'cis_created_in_two_cigs': 50,
               'cis_accepts_followed': 400, 'cis_recreated_after_disconnect': 60, 'cis_disconnect_before_create': 50, 'train_cases': 300,
-              'train_commands': 3500, 'train_continuation_fragments': 1000, 'train_followups_answered': 500},
+              'train_commands': 3500, 'train_continuation_fragments': 1000, 'train_followups_answered': 500,
+              'advstate_cases': 300, 'advstate_commands': 3500, 'advstate_enable_set_without_address': 60,
+              'advstate_enable_set_without_parameters': 50, 'advstate_enable_enabled_set': 80, 'advstate_enable_removed_set': 15,
+              'advstate_enable_unknown_set': 70, 'advstate_legacy_adv_enable_idle_without_parameters': 25,
+              'advstate_cancel_nothing_pending': 20, 'advstate_followups_answered': 900,
+              'hist_cases': 500, 'hist_procedures_by_peripheral': 500, 'hist_procedures_by_central': 500,
+              'hist_procedures_by_peripheral_reduced_capabilities': 450, 'hist_procedures_after_reconnection_rounds': 200,
+              'hist_faults_mid_procedure': 100, 'hist_cis_created_again': 150, 'hist_cis_created_again_acl_lost_before_accept': 70,
+              'hist_acl_created_again': 100, 'hist_classic_histories': 80, 'hist_classic_procedures_by_peripheral': 150,
+              'hist_classic_procedures_by_central': 150, 'hist_classic_faults_mid_procedure': 25},
     'thorough': {'commands_swept': 18000, 'distinct_opcodes_swept': 220, 'pending_procedures_followed': 600,
                  'host_commands': 30000, 'own_opcode_checks': 30000, 'proc_cases': 800,
                  'cig_histories': 1600, 'cis_handles_followed': 2500, 'cis_created_after_reconfiguration': 700,
                  'cis_created_after_remove_and_reconfiguration': 120, 'cis_created_in_two_cigs': 400,
                  'cis_accepts_followed': 2500, 'cis_recreated_after_disconnect': 400, 'cis_disconnect_before_create': 350, 'train_cases': 2000,
-                 'train_commands': 25000, 'train_continuation_fragments': 8000, 'train_followups_answered': 3500},
+                 'train_commands': 25000, 'train_continuation_fragments': 8000, 'train_followups_answered': 3500,
+                 'advstate_cases': 2200, 'advstate_commands': 25000, 'advstate_enable_set_without_address': 450,
+                 'advstate_enable_set_without_parameters': 350, 'advstate_enable_enabled_set': 600, 'advstate_enable_removed_set': 100,
+                 'advstate_enable_unknown_set': 500, 'advstate_legacy_adv_enable_idle_without_parameters': 180,
+                 'advstate_cancel_nothing_pending': 150, 'advstate_followups_answered': 6500,
+                 'hist_cases': 3500, 'hist_procedures_by_peripheral': 3000, 'hist_procedures_by_central': 3000,
+                 'hist_procedures_by_peripheral_reduced_capabilities': 2700, 'hist_procedures_after_reconnection_rounds': 1200,
+                 'hist_faults_mid_procedure': 600, 'hist_cis_created_again': 1100, 'hist_cis_created_again_acl_lost_before_accept': 500,
+                 'hist_acl_created_again': 750, 'hist_classic_histories': 650, 'hist_classic_procedures_by_peripheral': 1200,
+                 'hist_classic_procedures_by_central': 1200, 'hist_classic_faults_mid_procedure': 200},
 }
 CASE_TIMEOUT = 600
 
@@ -130,6 +178,29 @@ def plan(tier, seed):
         cases.append({'kind': 'cig', 'seed': seed * 1000003 + i})
     for i in range(400 if tier == 'quick' else 2500):
         cases.append({'kind': 'train', 'seed': seed * 1000003 + i})
+    for i in range(320 if tier == 'quick' else 2400):
+        cases.append({'kind': 'advstate', 'seed': seed * 1000003 + i})
+    # hist/features: every LE feature bit of the default capability set removed on either controller, for a device that
+    # issues as central, as peripheral, or in alternating roles; a rotating selection of supported commands removed
+    bits, cmds = capability_space()
+    k = 0
+    for rep in range(3 if tier == 'quick' else 12):
+        for role in ('central', 'peripheral', 'alternating'):
+            for side in (0, 1):
+                caps = [None] + [{'side': side, 'kind': 'feature', 'index': b} for b in range(len(bits))]
+                caps += [{'side': side, 'kind': 'command', 'index': (seed * 5 + rep * 7 + j * 11 + side) % len(cmds)}
+                         for j in range(4 if tier == 'quick' else len(cmds) // 6)]
+                for cap in caps:
+                    k += 1
+                    cases.append({'kind': 'hist', 'family': 'features', 'role': role, 'cap': cap, 'seed': seed * 1000003 + k})
+    rr = random.Random(seed * 7919 + 3)
+    for i in range(160 if tier == 'quick' else 1200):
+        cases.append({'kind': 'hist', 'family': 'cis', 'cap': random_capability(rr, [0, 1]), 'seed': seed * 1000003 + i})
+    for i in range(90 if tier == 'quick' else 720):
+        cases.append({'kind': 'hist', 'family': 'classic', 'role': ('central', 'peripheral', 'alternating')[i % 3],
+                      'cap': random_capability(rr, [0, 1]), 'seed': seed * 1000003 + i})
+    for i in range(100 if tier == 'quick' else 800):
+        cases.append({'kind': 'hist', 'family': 'acl', 'cap': random_capability(rr, [0, 1]), 'seed': seed * 1000003 + i})
     return cases
 
 
@@ -1281,6 +1352,1003 @@ async def train_case(case, r: R):
     r.sample = {'kind': 'train', 'sets': {hex(h): v for h, v in created.items()}, 'commands': trace[:14]}
 
 
+# -----------------------------------------------------------------------------
+# capability sets: one le_features bit / one supported command removed on one controller
+def capability_space():
+    """The default capability set of the virtual controller, as (feature bits, command opcodes)."""
+    from bumble import hci
+    from bumble.controller import Controller
+    bits = [b for b in hci.LeFeatureMask if Controller.le_features & b]
+    # (commands every controller must implement are not taken away: a host cannot be expected to work without them)
+    mandatory = {hci.HCI_RESET_COMMAND, hci.HCI_READ_BUFFER_SIZE_COMMAND, hci.HCI_READ_BD_ADDR_COMMAND,
+                 hci.HCI_READ_LOCAL_VERSION_INFORMATION_COMMAND, hci.HCI_READ_LOCAL_SUPPORTED_FEATURES_COMMAND,
+                 hci.HCI_SET_EVENT_MASK_COMMAND, hci.HCI_LE_SET_EVENT_MASK_COMMAND, hci.HCI_LE_READ_BUFFER_SIZE_COMMAND,
+                 hci.HCI_LE_READ_LOCAL_SUPPORTED_FEATURES_COMMAND}
+    return bits, sorted(Controller.supported_commands - mandatory)
+
+
+def apply_capability(rg, cap):
+    """cap: None | {'side': i, 'kind': 'feature'|'command', 'index': k}; applied BEFORE power_on, so that the host
+    learns the reduced set from the controller itself. Returns a description."""
+    if not cap or cap.get('kind') in (None, 'none'):
+        return 'default capabilities'
+    bits, cmds = capability_space()
+    c = rg.controllers[cap['side']]
+    if cap['kind'] == 'feature':
+        b = bits[cap['index'] % len(bits)]
+        c.le_features = c.le_features & ~b
+        return f'controller {cap["side"]} without LE feature {b.name}'
+    op = cmds[cap['index'] % len(cmds)]
+    c.supported_commands = set(c.supported_commands) - {op}
+    return f'controller {cap["side"]} without supported command {op:#06x}'
+
+
+def random_capability(rng, sides):
+    how = rng.choice(['none', 'feature', 'feature', 'command'])
+    if how == 'none':
+        return None
+    return {'side': rng.choice(sides), 'kind': how, 'index': rng.randrange(1000)}
+
+
+def completions(log, dev, start):
+    """(seq, code, status, handle) for the completion events of controller `dev` whose parameters start with
+    (status, connection handle): Disconnection Complete, Encryption Change (v1/v2), Key Refresh, Read Remote
+    (Supported|Extended) Features / Version, and the LE meta events Connection Update, Read Remote Features, PHY
+    Update, CIS Established, Subrate Change."""
+    out = []
+    for seq, d, direction, pkt, _t in log[start:]:
+        if d != dev or direction != 'c2h' or pkt[0] != 4:
+            continue
+        code = pkt[1]
+        if code == 0x3E and len(pkt) >= 7 and pkt[3] in (0x03, 0x04, 0x0C, 0x19, 0x23):
+            out.append((seq, ('le', pkt[3]), pkt[4], (pkt[5] | pkt[6] << 8) & 0x0FFF))
+        elif code in (0x05, 0x08, 0x59, 0x30, 0x0B, 0x0C, 0x23) and len(pkt) >= 6:
+            out.append((seq, code, pkt[3], (pkt[4] | pkt[5] << 8) & 0x0FFF))
+    return out
+
+
+def le_connection_completes(log, dev, start):
+    """(seq, status, handle, role) of LE (Enhanced) Connection Complete events of controller `dev`."""
+    out = []
+    for seq, d, direction, pkt, _t in log[start:]:
+        if d == dev and direction == 'c2h' and pkt[0] == 4 and pkt[1] == 0x3E and len(pkt) >= 8 and pkt[3] in (0x01, 0x0A, 0x29):
+            out.append((seq, pkt[4], (pkt[5] | pkt[6] << 8) & 0x0FFF, pkt[7]))
+    return out
+
+
+async def issue_checked(r, rg, dev, cmd, key, ctx, foreign=True):
+    """One command through the real host of device `dev`: exactly one Command Complete / Command Status naming its
+    opcode leaves controller `dev`, the caller is handed it. Returns (kind 'cc'|'cs', status, seq) or None when the
+    command slot is lost (the scenario cannot go on)."""
+    mark = len(rg.hci_log)
+    try:
+        resp = await vloop.vwait(rg.hosts[dev].send_command(cmd), 120)
+    except vloop.Hang:
+        resp = None
+    except Exception as ex:
+        r.ev('oracle_evals')
+        r.bad(f'own/caller-got-exception/{key}', f'send_command({cmd.name}) raised {type(ex).__name__}: {ex}; {ctx()}')
+        return None
+    try:
+        # (replies are logged when the controller emits them: a bounded settle is enough to see a second one; an
+        # advertiser enabled with a zero interval keeps the link busy for ever)
+        await rg.quiesce(max_turns=600)
+    except vloop.Hang:
+        r.ev('no_quiescence_after_command')
+    r.ev('oracle_evals', 2)
+    evs = [e for e in parse_events(rg.hci_log, dev, mark) if e[1] in ('cc', 'cs')]
+    mine = [e for e in evs if e[2] == cmd.op_code]
+    if len(mine) != 1:
+        excs = [f'{w}: {e}' for w, e in rg.exceptions][-2:]
+        r.bad(f'answer/{"none" if not mine else "multiple"}/{key}',
+              f'{len(mine)} Command Complete/Status events for {cmd.name} ({cmd.op_code:#06x}); {ctx()}; exceptions in the '
+              f'stack: {excs}')
+        return None
+    other = [e for e in evs if e[2] not in (cmd.op_code, 0)]
+    if other and foreign:
+        r.bad(f'answer/foreign-opcode/{key}', f'{cmd.name} was followed by a reply for {[hex(e[2]) for e in other]}; {ctx()}')
+    if resp is None:
+        r.bad(f'single/caller-hang/{key}', f'the answer to {cmd.name} was emitted but its caller still waits; {ctx()}')
+        return None
+    r.ev('own_opcode_checks')
+    if resp.command_opcode != cmd.op_code:
+        r.bad(f'own/foreign-response/{key}', f'caller of {cmd.name} was handed a response for {resp.command_opcode:#06x}')
+    return mine[0][1], mine[0][3], mine[0][0]
+
+
+async def wait_for_event(rg, pred, t_v=None):
+    """Virtual time passes (in steps) until pred() is true; False when T_v went by."""
+    deadline = asyncio.get_running_loop().time() + (vloop.T_V if t_v is None else t_v)
+    while True:
+        await rg.quiesce()
+        if pred():
+            return True
+        if asyncio.get_running_loop().time() >= deadline:
+            return False
+        await asyncio.sleep(5.0)
+
+
+# -----------------------------------------------------------------------------
+# advstate: commands of the stateful families issued in states where a precondition is missing
+async def advstate_case(case, r: R):
+    from bumble import hci
+    from vlib import rig as vrig
+    rng = random.Random(case['seed'] ^ 0xAD5)
+    vrig.seed_entropy(case['seed'])
+    delay = rng.choice([0, 0, 1, 3])
+    rg = vrig.Rig(2, seed=case['seed'], max_delay=delay)
+    capability = apply_capability(rg, random_capability(rng, [0]))
+    await rg.power_on()
+    r.ev('advstate_cases')
+    handles = rng.sample([0, 1, 2, 0x10, 0xEF], 3)
+    sets = {}           # ledger: handle -> {'own': own address type | None, 'addr': bool, 'enabled': bool}
+    removed = set()
+    legacy = {'enabled': False, 'scan': False, 'connecting': False, 'fal': set(), 'params': False}
+    absent = hci.Address('C5:C5:C5:C5:C5:C5', hci.Address.RANDOM_DEVICE_ADDRESS)
+    trace = []
+    forced = []         # commands that must come next
+
+    def state_of(h):
+        s = sets.get(h)
+        if s is None:
+            return 'removed-set' if h in removed else 'unknown-set'
+        if s['enabled']:
+            return 'enabled-set'
+        if s['own'] is None:
+            return 'set-without-parameters'
+        if s['own'] in (1, 3) and not s['addr']:
+            return 'set-without-address'
+        if s['own'] == 2 and not s['addr']:
+            return 'set-with-public-or-resolvable-address-only'
+        return 'ready-set'
+
+    def params_cmd(h, own):
+        return hci.HCI_LE_Set_Extended_Advertising_Parameters_Command(
+            advertising_handle=h, advertising_event_properties=rng.choice([0x0013, 0x0001, 0x0000, 0x0002]),
+            primary_advertising_interval_min=rng.choice([32, 160]), primary_advertising_interval_max=160,
+            primary_advertising_channel_map=7, own_address_type=own, peer_address_type=0, peer_address=hci.Address.ANY,
+            advertising_filter_policy=0, advertising_tx_power=0, primary_advertising_phy=1, secondary_advertising_max_skip=0,
+            secondary_advertising_phy=1, advertising_sid=h & 0x0F, scan_request_notification_enable=0)
+
+    def create_connection_cmd():
+        return hci.HCI_LE_Create_Connection_Command(
+            le_scan_interval=96, le_scan_window=96, initiator_filter_policy=0, peer_address_type=1, peer_address=absent,
+            own_address_type=1, connection_interval_min=12, connection_interval_max=24, max_latency=0,
+            supervision_timeout=72, min_ce_length=0, max_ce_length=0)
+
+    def pick():
+        """(label, state class, command, ledger update)"""
+        h = rng.choice(handles)
+        st = state_of(h)
+        if forced:
+            op = forced.pop(0)
+            if isinstance(op, tuple):
+                op, h = op
+                st = state_of(h)
+        else:
+            op = pick_op()
+        return build(op, h, st)
+
+    def pick_op():
+        return rng.choices(
+            ['ext-adv-enable', 'ext-adv-enable', 'ext-adv-enable', 'ext-adv-enable-two', 'ext-adv-disable', 'ext-adv-disable-all',
+             'set-ext-adv-params', 'set-ext-adv-params', 'set-adv-set-random-address', 'remove-advertising-set',
+             'clear-advertising-sets', 'ext-adv-data', 'ext-scan-response-data', 'periodic-adv-params', 'periodic-adv-data',
+             'periodic-adv-enable', 'legacy-adv-params', 'legacy-adv-enable', 'legacy-adv-disable', 'legacy-adv-data',
+             'scan-enable', 'scan-disable', 'ext-scan-enable', 'ext-scan-disable', 'le-create-connection',
+             'le-create-connection-cancel', 'filter-accept-list-add', 'filter-accept-list-remove', 'filter-accept-list-clear',
+             'set-random-address', 'remove-cig', 'create-cis', 'accept-cis', 'reject-cis', 'setup-iso-data-path',
+             'remove-iso-data-path', 'terminate-big', 'create-big', 'disconnect', 'le-read-remote-features',
+             'ltk-request-reply', 'set-data-length', 'periodic-sync-cancel', 'periodic-sync-terminate', 'resolving-list-clear'])[0]
+
+    def build(op, h, st):
+        upd = None
+        if op in ('ext-adv-enable', 'ext-adv-enable-two'):
+            hs = [h] if op == 'ext-adv-enable' else rng.sample(handles, 2)
+            cls = '+'.join(sorted({state_of(x) for x in hs}))
+            cmd = hci.HCI_LE_Set_Extended_Advertising_Enable_Command(
+                enable=1, advertising_handles=hs, durations=[rng.choice([0, 0, 100])] * len(hs),
+                max_extended_advertising_events=[0] * len(hs))
+
+            def upd(status):
+                for x in hs:
+                    if x in sets:
+                        sets[x]['enabled'] = True
+            for x in hs:
+                r.ev('advstate_enable_' + state_of(x).replace('-', '_'))
+            return 'ext-adv-enable', cls, cmd, upd
+        if op == 'ext-adv-disable':
+            cmd = hci.HCI_LE_Set_Extended_Advertising_Enable_Command(enable=0, advertising_handles=[h], durations=[0],
+                                                                     max_extended_advertising_events=[0])
+            r.ev('advstate_disable_' + st.replace('-', '_'))
+            return op, st, cmd, lambda status: sets.get(h, {}).update(enabled=False) if h in sets else None
+        if op == 'ext-adv-disable-all':
+            cmd = hci.HCI_LE_Set_Extended_Advertising_Enable_Command(enable=0, advertising_handles=[], durations=[],
+                                                                     max_extended_advertising_events=[])
+            return op, 'no-sets' if not sets else 'some-sets', cmd, lambda status: [s.update(enabled=False) for s in sets.values()]
+        if op == 'set-ext-adv-params':
+            own = rng.choice([0, 1, 1, 1, 2, 3])
+
+            def upd(status):
+                sets.setdefault(h, {'own': None, 'addr': False, 'enabled': False})['own'] = own
+                removed.discard(h)
+            return op, st, params_cmd(h, own), upd
+        if op == 'set-adv-set-random-address':
+            cmd = hci.HCI_LE_Set_Advertising_Set_Random_Address_Command(
+                advertising_handle=h, random_address=hci.Address(f'C{h & 7}:0{h & 7}:11:22:33:F{h & 7}', hci.Address.RANDOM_DEVICE_ADDRESS))
+
+            def upd(status):
+                sets.setdefault(h, {'own': None, 'addr': False, 'enabled': False})['addr'] = True
+                removed.discard(h)
+            return op, st, cmd, upd
+        if op == 'remove-advertising-set':
+            def upd(status):
+                if sets.pop(h, None) is not None:
+                    removed.add(h)
+            return op, st, hci.HCI_LE_Remove_Advertising_Set_Command(advertising_handle=h), upd
+        if op == 'clear-advertising-sets':
+            def upd(status):
+                removed.update(sets)
+                sets.clear()
+            cls = 'some-enabled' if any(s['enabled'] for s in sets.values()) else 'none-enabled'
+            return op, cls, hci.HCI_LE_Clear_Advertising_Sets_Command(), upd
+        if op == 'ext-adv-data':
+            return op, st, hci.HCI_LE_Set_Extended_Advertising_Data_Command(
+                advertising_handle=h, operation=rng.choice([0, 1, 2, 3, 4]), fragment_preference=0,
+                advertising_data=bytes(rng.choice([0, 5, 31]))), None
+        if op == 'ext-scan-response-data':
+            return op, st, hci.HCI_LE_Set_Extended_Scan_Response_Data_Command(
+                advertising_handle=h, operation=rng.choice([0, 1, 2, 3]), fragment_preference=0,
+                scan_response_data=bytes(rng.choice([0, 5, 31]))), None
+        if op == 'periodic-adv-params':
+            return op, st, hci.HCI_LE_Set_Periodic_Advertising_Parameters_Command(
+                advertising_handle=h, periodic_advertising_interval_min=80, periodic_advertising_interval_max=80,
+                periodic_advertising_properties=0), None
+        if op == 'periodic-adv-data':
+            return op, st, hci.HCI_LE_Set_Periodic_Advertising_Data_Command(advertising_handle=h, operation=rng.choice([0, 1, 2, 3]),
+                                                                         advertising_data=bytes(rng.choice([0, 7]))), None
+        if op == 'periodic-adv-enable':
+            return op, st, hci.HCI_LE_Set_Periodic_Advertising_Enable_Command(enable=rng.choice([0, 1]), advertising_handle=h), None
+        if op == 'legacy-adv-params':
+            return op, 'advertising' if legacy['enabled'] else 'idle', hci.HCI_LE_Set_Advertising_Parameters_Command(
+                advertising_interval_min=rng.choice([32, 160]), advertising_interval_max=160, advertising_type=rng.choice([0, 0, 2, 3]),
+                own_address_type=rng.choice([0, 1, 2, 3]), peer_address_type=0, peer_address=hci.Address.ANY,
+                advertising_channel_map=7, advertising_filter_policy=0), lambda status: legacy.update(params=True)
+        if op in ('legacy-adv-enable', 'legacy-adv-disable'):
+            en = op == 'legacy-adv-enable'
+            cls = 'advertising' if legacy['enabled'] else 'idle'
+            if en and not legacy['params']:
+                # no LE Set Advertising Parameters yet: the virtual controller then advertises with a zero interval,
+                # which keeps the link busy for ever; the advertiser is disabled again by the next command
+                cls += '-without-parameters'
+                forced.append('legacy-adv-disable')
+            r.ev(f'advstate_{op}_{cls}'.replace('-', '_'))
+            return op, cls, hci.HCI_LE_Set_Advertising_Enable_Command(advertising_enable=int(en)), lambda status: legacy.update(enabled=en)
+        if op == 'legacy-adv-data':
+            return op, 'advertising' if legacy['enabled'] else 'idle', hci.HCI_LE_Set_Advertising_Data_Command(
+                advertising_data=bytes(rng.choice([0, 31]))), None
+        if op in ('scan-enable', 'scan-disable', 'ext-scan-enable', 'ext-scan-disable'):
+            en = op.endswith('enable')
+            cls = 'scanning' if legacy['scan'] else 'idle'
+            if op.startswith('ext'):
+                cmd = hci.HCI_LE_Set_Extended_Scan_Enable_Command(enable=int(en), filter_duplicates=0, duration=0, period=0)
+            else:
+                cmd = hci.HCI_LE_Set_Scan_Enable_Command(le_scan_enable=int(en), filter_duplicates=rng.choice([0, 1]))
+            return op, cls, cmd, lambda status: legacy.update(scan=en)
+        if op == 'le-create-connection':
+            cls = 'already-pending' if legacy['connecting'] else 'idle'
+            return op, cls, create_connection_cmd(), lambda status: legacy.update(connecting=True) if status == 0 else None
+        if op == 'le-create-connection-cancel':
+            cls = 'pending' if legacy['connecting'] else 'nothing-pending'
+            r.ev('advstate_cancel_' + cls.replace('-', '_'))
+            return op, cls, hci.HCI_LE_Create_Connection_Cancel_Command(), lambda status: legacy.update(connecting=False)
+        if op in ('filter-accept-list-add', 'filter-accept-list-remove'):
+            a = rng.choice([absent, rg.devices[1].random_address])
+            cls = 'listed' if bytes(a) in legacy['fal'] else 'not-listed'
+            if op.endswith('add'):
+                return op, cls, hci.HCI_LE_Add_Device_To_Filter_Accept_List_Command(address_type=1, address=a), \
+                    lambda status: legacy['fal'].add(bytes(a))
+            return op, cls, hci.HCI_LE_Remove_Device_From_Filter_Accept_List_Command(address_type=1, address=a), \
+                lambda status: legacy['fal'].discard(bytes(a))
+        if op == 'filter-accept-list-clear':
+            return op, 'any', hci.HCI_LE_Clear_Filter_Accept_List_Command(), lambda status: legacy['fal'].clear()
+        if op == 'set-random-address':
+            cls = 'advertising-or-scanning' if legacy['enabled'] or legacy['scan'] or legacy['connecting'] else 'idle'
+            return op, cls, hci.HCI_LE_Set_Random_Address_Command(random_address=rg.devices[0].random_address), None
+        # families whose object (CIG, CIS, BIG, sync, connection) does not exist
+        nothing = 'no-such-object'
+        hh = rng.choice([0x0001, 0x0010, 0x0EFF])
+        if op == 'remove-cig':
+            return op, nothing, hci.HCI_LE_Remove_CIG_Command(cig_id=rng.choice([0, 1, 0xEF])), None
+        if op == 'create-cis':
+            return op, nothing, hci.HCI_LE_Create_CIS_Command(cis_connection_handle=[hh], acl_connection_handle=[hh ^ 1]), None
+        if op == 'accept-cis':
+            return op, nothing, hci.HCI_LE_Accept_CIS_Request_Command(connection_handle=hh), None
+        if op == 'reject-cis':
+            return op, nothing, hci.HCI_LE_Reject_CIS_Request_Command(connection_handle=hh, reason=0x0D), None
+        if op == 'setup-iso-data-path':
+            return op, nothing, hci.HCI_LE_Setup_ISO_Data_Path_Command(
+                connection_handle=hh, data_path_direction=rng.choice([0, 1]), data_path_id=0,
+                codec_id=hci.CodingFormat(hci.CodecID.TRANSPARENT), controller_delay=0, codec_configuration=b''), None
+        if op == 'remove-iso-data-path':
+            return op, nothing, hci.HCI_LE_Remove_ISO_Data_Path_Command(connection_handle=hh, data_path_direction=rng.choice([1, 2, 3])), None
+        if op == 'terminate-big':
+            return op, nothing, hci.HCI_LE_Terminate_BIG_Command(big_handle=rng.choice([0, 1, 0xEF]), reason=0x16), None
+        if op == 'create-big':
+            return op, st, hci.HCI_LE_Create_BIG_Command(
+                big_handle=1, advertising_handle=h, num_bis=1, sdu_interval=10000, max_sdu=100, max_transport_latency=10, rtn=2,
+                phy=1, packing=0, framing=0, encryption=0, broadcast_code=bytes(16)), None
+        if op == 'disconnect':
+            return op, nothing, hci.HCI_Disconnect_Command(connection_handle=hh, reason=0x13), None
+        if op == 'le-read-remote-features':
+            return op, nothing, hci.HCI_LE_Read_Remote_Features_Command(connection_handle=hh), None
+        if op == 'ltk-request-reply':
+            return op, nothing, hci.HCI_LE_Long_Term_Key_Request_Reply_Command(connection_handle=hh, long_term_key=bytes(16)), None
+        if op == 'set-data-length':
+            return op, nothing, hci.HCI_LE_Set_Data_Length_Command(connection_handle=hh, tx_octets=27, tx_time=328), None
+        if op == 'periodic-sync-cancel':
+            return op, nothing, hci.HCI_LE_Periodic_Advertising_Create_Sync_Cancel_Command(), None
+        if op == 'periodic-sync-terminate':
+            return op, nothing, hci.HCI_LE_Periodic_Advertising_Terminate_Sync_Command(sync_handle=hh), None
+        return 'resolving-list-clear', 'any', hci.HCI_LE_Clear_Resolving_List_Command(), None
+
+    def ctx():
+        return f'{capability}; commands so far {trace[-12:]}'
+
+    blocked = False
+    labels = []
+    for h in handles:
+        how = rng.choice(['params', 'params', 'params+addr', 'params+addr', 'addr', 'none'])
+        if 'params' in how:
+            forced.append(('set-ext-adv-params', h))
+        if 'addr' in how:
+            forced.append(('set-adv-set-random-address', h))
+    for h in rng.sample(handles, 2):
+        forced.append(('ext-adv-enable', h))
+    budget = rng.randint(8, 16)
+    while forced or budget > 0:
+        if not forced:
+            budget -= 1
+        try:
+            label, cls, cmd, upd = pick()
+        except Exception as ex:         # a command class this bumble does not have: not part of the family here
+            r.ev('advstate_commands_unavailable')
+            r.add_extra_list('advstate_unavailable', f'{type(ex).__name__}: {ex}'[:120])
+            continue
+        trace.append(f'{label}[{cls}]')
+        labels.append((label, cls))
+        mark = len(rg.hci_log)
+        got = await issue_checked(r, rg, 0, cmd, f'advstate/{label}/{cls}', ctx)
+        r.ev('advstate_commands')
+        if got is None:
+            blocked = True
+            break
+        kind, status, seq = got
+        if kind == 'cs' and status == 0 and cmd.op_code in PROCEDURES and cmd.op_code not in OPEN_ENDED:
+            name, codes = PROCEDURES[cmd.op_code]
+            r.ev('pending_procedures_followed')
+            ok = await wait_for_event(rg, lambda: any(e[0] > seq and e[1] == 'ev' and e[4] in codes
+                                                      for e in parse_events(rg.hci_log, 0, mark)))
+            r.ev('oracle_evals')
+            if not ok:
+                r.bad(f'conclude/never/advstate/{label}/{cls}', f'{name} answered PENDING, no completion event within T_v; {ctx()}')
+        if label == 'le-create-connection-cancel' and status == 0:
+            r.ev('pending_procedures_followed')
+            r.ev('oracle_evals')
+            if not le_connection_completes(rg.hci_log, 0, mark):
+                r.bad(f'conclude/never/advstate/le-create-connection-cancelled/{cls}',
+                      f'the cancel was answered with success but no LE Connection Complete concludes the attempt; {ctx()}')
+        if upd is not None:
+            upd(status)
+    if not blocked:
+        # later commands are served, also after the advertising timers ran for a while
+        for phase in ('at-once', 'after-one-second'):
+            if phase == 'after-one-second':
+                await asyncio.sleep(1.0)
+                try:
+                    await rg.quiesce(max_turns=20000)
+                except vloop.Hang:
+                    r.ev('advstate_no_quiescence')
+            for cmd in (hci.HCI_Read_BD_ADDR_Command(), hci.HCI_LE_Rand_Command()):
+                if await issue_checked(r, rg, 0, cmd, f'advstate/followup/{phase}', ctx) is None:
+                    blocked = True
+                    break
+                r.ev('advstate_followups_answered')
+            if blocked:
+                break
+    if not blocked:
+        for where, ex in rg.exceptions:
+            r.bad('answer/exception-later/advstate', f'{where}: {ex}; {ctx()}')
+    r.sig('advstate', tuple(labels))
+    r.sched.add(rg.schedule_signature)
+    r.evals()
+    r.sample = {'kind': 'advstate', 'capabilities': capability, 'commands': trace[:16]}
+
+
+# -----------------------------------------------------------------------------
+# hist: pending procedures followed through HISTORIES (establish - tear down - establish again - fault before
+# completion), issued by either role, under reduced capability sets
+async def hist_case(case, r: R):
+    fam = case['family']
+    r.ev('hist_cases')
+    if fam == 'cis':
+        return await hist_cis(case, r)
+    if fam == 'features':
+        return await hist_features(case, r)
+    if fam == 'classic':
+        return await hist_classic(case, r)
+    return await hist_acl(case, r)
+
+
+def lose_feature_requests(rg, dev):
+    """From now on the LL feature requests addressed to controller `dev` are lost on the air (the link is about to
+    go away: the peer never gets to answer). Everything else, LL_TERMINATE_IND included, is delivered. Returns the
+    list of lost PDUs and a function that restores the link."""
+    from bumble import ll
+    ctl = rg.controllers[dev]
+    inner = ctl.on_ll_control_pdu
+    lost = []
+
+    def on_pdu(sender, packet):
+        if isinstance(packet, (ll.FeatureReq, ll.PeripheralFeatureReq)):
+            lost.append(packet)
+        else:
+            inner(sender, packet)
+    ctl.on_ll_control_pdu = on_pdu
+
+    def restore():
+        ctl.on_ll_control_pdu = inner
+    return lost, restore
+
+
+async def hist_features(case, r: R):
+    from bumble import hci
+    from vlib import rig as vrig
+    rng = random.Random(case['seed'] ^ 0xFEA7)
+    vrig.seed_entropy(case['seed'])
+    delay = rng.choice([0, 0, 1, 3])
+    rg = vrig.Rig(2, seed=case['seed'], max_delay=delay)
+    capability = apply_capability(rg, case.get('cap'))
+    await rg.power_on()
+    r.ev('hist_feature_histories')
+    if case.get('cap'):
+        r.ev('hist_reduced_capability_sets')
+    hist = []
+
+    def ctx():
+        return f'{capability}; history {hist}'
+
+    role = case['role']                 # role of device 0 on the first connection; 'alternating' swaps it every round
+    rounds = rng.choice([2, 2, 3])
+    fault = rng.choice(['none', 'peer-drops-acl-mid-procedure', 'local-drops-acl-mid-procedure', 'peer-drops-acl-mid-procedure'])
+    procs = {
+        'le-read-remote-features': (lambda h: hci.HCI_LE_Read_Remote_Features_Command(connection_handle=h), {('le', 0x04)}),
+        'le-enable-encryption': (lambda h: hci.HCI_LE_Enable_Encryption_Command(
+            connection_handle=h, random_number=bytes(8), encrypted_diversifier=0, long_term_key=bytes(16)), {0x08, 0x59, 0x30}),
+        'le-subrate-request': (lambda h: hci.HCI_LE_Subrate_Request_Command(
+            connection_handle=h, subrate_min=1, subrate_max=2, max_latency=2, continuation_number=1, supervision_timeout=200),
+            {('le', 0x23)}),
+        'read-remote-version': (lambda h: hci.HCI_Read_Remote_Version_Information_Command(connection_handle=h), {0x0C}),
+        'le-connection-update': (lambda h: hci.HCI_LE_Connection_Update_Command(
+            connection_handle=h, connection_interval_min=12, connection_interval_max=24, max_latency=0, supervision_timeout=72,
+            min_ce_length=0, max_ce_length=0), {('le', 0x03)}),
+        'le-set-phy': (lambda h: hci.HCI_LE_Set_PHY_Command(connection_handle=h, all_phys=0, tx_phys=1, rx_phys=1, phy_options=0),
+                       {('le', 0x0C)}),
+    }
+
+    async def run_proc(name, dev, handle, my_role, hclass):
+        """Issue `name` through host `dev`; a PENDING answer is followed to the completion event for `handle`."""
+        mk, codes = procs[name]
+        mark = len(rg.hci_log)
+        key = f'hist/{name}/by-{my_role}/{hclass}'
+        got = await issue_checked(r, rg, dev, mk(handle), key, ctx, foreign=False)
+        if got is None:
+            return False
+        kind, status, seq = got
+        hist.append((name, f'by-{my_role}', f'status {status}'))
+        if kind != 'cs' or status != 0:
+            r.ev('hist_procedures_refused')
+            return True
+        r.ev('pending_procedures_followed')
+        r.ev('hist_procedures_followed')
+        r.ev(f'hist_procedures_by_{my_role}')
+        if case.get('cap'):
+            r.ev(f'hist_procedures_by_{my_role}_reduced_capabilities')
+        ok = await wait_for_event(rg, lambda: any(e[0] > seq and e[1] in codes and e[3] == handle
+                                                  for e in completions(rg.hci_log, dev, mark)))
+        r.ev('oracle_evals')
+        if not ok:
+            r.bad(f'conclude/never/{key}',
+                  f'{name} for handle {handle:#06x} issued by the {my_role} was answered PENDING; no completion event '
+                  f'{sorted(map(str, codes))} for that handle within T_v; {ctx()}')
+        return True
+
+    try:
+        for rnd in range(rounds):
+            my_role = role if role != 'alternating' else ('central', 'peripheral')[rnd % 2]
+            if my_role == 'central':
+                mine, theirs = await rg.connect_le(0, 1)
+            else:
+                theirs, mine = await rg.connect_le(1, 0)
+            await rg.quiesce()
+            hist.append(('connected', f'device-0-is-{my_role}'))
+            hclass = 'first-connection' if rnd == 0 else \
+                'after-reconnection-roles-swapped' if role == 'alternating' else 'after-reconnection'
+            if rnd:
+                r.ev('hist_procedures_after_reconnection_rounds')
+            last = rnd == rounds - 1
+            names = rng.sample(sorted(procs), rng.choice([2, 3, 4]))
+            if 'le-read-remote-features' not in names:
+                names[rng.randrange(len(names))] = 'le-read-remote-features'
+            for name in names:
+                # (from either end: the procedure under test is issued by device 0 in its role, and sometimes by its peer)
+                if not await run_proc(name, 0, mine.handle, my_role, hclass):
+                    return
+                if rng.random() < 0.5:
+                    peer_role = 'peripheral' if my_role == 'central' else 'central'
+                    if not await run_proc(name, 1, theirs.handle, peer_role, hclass):
+                        return
+            if last and fault != 'none':
+                # the request is on the air, the peer has not answered yet, and the ACL connection goes away
+                held, release = lose_feature_requests(rg, 1)
+                mark = len(rg.hci_log)
+                key = 'hist/le-read-remote-features/acl-lost-mid-procedure'
+                got = await issue_checked(r, rg, 0, hci.HCI_LE_Read_Remote_Features_Command(connection_handle=mine.handle),
+                                          key, ctx, foreign=False)
+                if got is None:
+                    release()
+                    return
+                hist.append(('le-read-remote-features', f'by-{my_role}', f'status {got[1]}', fault))
+                dropper = theirs if fault.startswith('peer') else mine
+                await vloop.vwait(dropper.disconnect())
+                await rg.quiesce()
+                release()
+                await rg.quiesce()
+                if got[0] == 'cs' and got[1] == 0 and held:
+                    r.ev('pending_procedures_followed')
+                    r.ev('hist_faults_mid_procedure')
+                    ok = await wait_for_event(rg, lambda: any(e[0] > got[2] and e[1] == ('le', 0x04) and e[3] == mine.handle
+                                                              for e in completions(rg.hci_log, 0, mark)), 60)
+                    r.ev('oracle_evals')
+                    if not ok:
+                        r.bad(f'conclude/never/{key}',
+                              f'LE Read Remote Features for handle {mine.handle:#06x} issued by the {my_role} was answered PENDING, '
+                              f'then the ACL connection went away ({fault}) before the peer answered: no LE Read Remote Features Complete '
+                              f'(with an error status) follows; events for the handle: '
+                              f'{[(str(e[1]), e[2]) for e in completions(rg.hci_log, 0, mark) if e[3] == mine.handle]}; {ctx()}')
+                break
+            # tear down by either side
+            by = rng.choice(['device-0', 'device-1'])
+            await vloop.vwait((mine if by == 'device-0' else theirs).disconnect())
+            await rg.quiesce()
+            hist.append(('disconnected', f'by-{by}'))
+    except vloop.Hang:
+        r.bad('hang/hist/features', f'a connect() / disconnect() of the scenario was still pending at T_v; {ctx()}')
+    for where, ex in rg.exceptions:
+        r.bad('answer/exception-later/hist/features', f'{where}: {ex}; {ctx()}')
+    r.sig('hist-features', role, str(case.get('cap')), tuple(h[:2] for h in hist), fault)
+    r.sched.add(rg.schedule_signature)
+    r.evals()
+    r.sample = {'kind': 'hist', 'family': 'features', 'capabilities': capability, 'history': [list(map(str, h)) for h in hist][:10]}
+
+
+async def hist_classic(case, r: R):
+    """BR/EDR: remote feature / name reads and role switches issued by the initiator and by the acceptor of a
+    connection, again after disconnection and reconnection (same or swapped direction), finally a feature read whose
+    request is lost on the air while the ACL connection goes away."""
+    from bumble import hci, lmp
+    from vlib import rig as vrig
+    rng = random.Random(case['seed'] ^ 0xC1A5)
+    vrig.seed_entropy(case['seed'])
+    rg = vrig.Rig(2, seed=case['seed'], max_delay=rng.choice([0, 0, 1, 3]), classic=True)
+    capability = apply_capability(rg, case.get('cap'))
+    await rg.power_on()
+    r.ev('hist_classic_histories')
+    hist = []
+
+    def ctx():
+        return f'{capability}; history {hist}'
+
+    role = case['role']         # 'central' = device 0 initiates the connection
+    peer_addr = {0: rg.devices[1].public_address, 1: rg.devices[0].public_address}
+    procs = {
+        'read-remote-supported-features': (lambda d, h: hci.HCI_Read_Remote_Supported_Features_Command(connection_handle=h), {0x0B}, True),
+        'read-remote-extended-features': (lambda d, h: hci.HCI_Read_Remote_Extended_Features_Command(
+            connection_handle=h, page_number=rng.choice([0, 1, 2])), {0x23}, True),
+        'read-remote-version': (lambda d, h: hci.HCI_Read_Remote_Version_Information_Command(connection_handle=h), {0x0C}, True),
+        'remote-name-request': (lambda d, h: hci.HCI_Remote_Name_Request_Command(
+            bd_addr=peer_addr[d], page_scan_repetition_mode=2, reserved=0, clock_offset=0), {0x07}, False),
+        'switch-role': (lambda d, h: hci.HCI_Switch_Role_Command(bd_addr=peer_addr[d], role=rng.choice([0, 1])), {0x12}, False),
+    }
+
+    async def run_proc(name, dev, handle, my_role, hclass):
+        mk, codes, by_handle = procs[name]
+        mark = len(rg.hci_log)
+        key = f'hist/{name}/by-{my_role}/{hclass}'
+        got = await issue_checked(r, rg, dev, mk(dev, handle), key, ctx, foreign=False)
+        if got is None:
+            return False
+        kind, status, seq = got
+        hist.append((name, f'by-{my_role}', f'status {status}'))
+        if kind != 'cs' or status != 0:
+            r.ev('hist_procedures_refused')
+            return True
+        r.ev('pending_procedures_followed')
+        r.ev('hist_procedures_followed')
+        r.ev(f'hist_classic_procedures_by_{my_role}')
+
+        def concluded():
+            if by_handle:
+                return any(e[0] > seq and e[1] in codes and e[3] == handle for e in completions(rg.hci_log, dev, mark))
+            return any(e[0] > seq and e[1] == 'ev' and e[4] in codes for e in parse_events(rg.hci_log, dev, mark))
+        ok = await wait_for_event(rg, concluded)
+        r.ev('oracle_evals')
+        if not ok:
+            r.bad(f'conclude/never/{key}', f'{name} issued by the {my_role} (handle {handle:#06x}) was answered PENDING; no completion '
+                                           f'event {sorted(map(str, codes))} within T_v; {ctx()}')
+        return True
+
+    rounds = rng.choice([2, 2, 3])
+    fault = rng.choice(['none', 'peer-drops-acl-mid-procedure', 'local-drops-acl-mid-procedure'])
+    try:
+        for rnd in range(rounds):
+            my_role = role if role != 'alternating' else ('central', 'peripheral')[rnd % 2]
+            if my_role == 'central':
+                mine, theirs = await rg.connect_classic(0, 1)
+            else:
+                theirs, mine = await rg.connect_classic(1, 0)
+            await rg.quiesce()
+            hist.append(('connected', f'device-0-is-{"initiator" if my_role == "central" else "acceptor"}'))
+            hclass = 'first-connection' if rnd == 0 else \
+                'after-reconnection-roles-swapped' if role == 'alternating' else 'after-reconnection'
+            for name in rng.sample(sorted(procs), rng.choice([2, 3, 4])):
+                if not await run_proc(name, 0, mine.handle, my_role, hclass):
+                    return
+                if rng.random() < 0.4:
+                    if not await run_proc(name, 1, theirs.handle, 'peripheral' if my_role == 'central' else 'central', hclass):
+                        return
+            if rnd == rounds - 1 and fault != 'none':
+                ctl = rg.controllers[1]
+                inner = ctl.on_lmp_packet
+                lost = []
+                ctl.on_lmp_packet = lambda sender, packet: lost.append(packet) \
+                    if isinstance(packet, (lmp.LmpFeaturesReq, lmp.LmpFeaturesReqExt)) else inner(sender, packet)
+                mark = len(rg.hci_log)
+                key = 'hist/read-remote-features-bredr/acl-lost-mid-procedure'
+                which = rng.choice(['read-remote-supported-features', 'read-remote-extended-features'])
+                code = 0x0B if which.endswith('supported-features') else 0x23
+                got = await issue_checked(r, rg, 0, procs[which][0](0, mine.handle), key, ctx, foreign=False)
+                if got is None:
+                    ctl.on_lmp_packet = inner
+                    return
+                hist.append((which, f'by-{my_role}', f'status {got[1]}', fault))
+                await vloop.vwait((theirs if fault.startswith('peer') else mine).disconnect())
+                await rg.quiesce()
+                ctl.on_lmp_packet = inner
+                if got[0] == 'cs' and got[1] == 0 and lost:
+                    r.ev('pending_procedures_followed')
+                    r.ev('hist_faults_mid_procedure')
+                    r.ev('hist_classic_faults_mid_procedure')
+                    ok = await wait_for_event(rg, lambda: any(e[0] > got[2] and e[1] == code and e[3] == mine.handle
+                                                              for e in completions(rg.hci_log, 0, mark)), 60)
+                    r.ev('oracle_evals')
+                    if not ok:
+                        r.bad(f'conclude/never/{key}',
+                              f'{which} for handle {mine.handle:#06x} issued by the {my_role} was answered PENDING, then the ACL '
+                              f'connection went away ({fault}) before the peer answered: no completion event {code:#04x} for '
+                              f'the handle follows; {ctx()}')
+                break
+            await vloop.vwait(rng.choice([mine, theirs]).disconnect())
+            await rg.quiesce()
+            hist.append(('disconnected',))
+    except vloop.Hang:
+        r.bad('hang/hist/classic', f'a connect() / disconnect() of the scenario was still pending at T_v; {ctx()}')
+    for where, ex in rg.exceptions:
+        r.bad('answer/exception-later/hist/classic', f'{where}: {ex}; {ctx()}')
+    r.sig('hist-classic', role, str(case.get('cap')), tuple(h[:2] for h in hist), fault)
+    r.sched.add(rg.schedule_signature)
+    r.evals()
+    r.sample = {'kind': 'hist', 'family': 'classic', 'capabilities': capability, 'history': [list(map(str, h)) for h in hist][:10]}
+
+
+def cis_requests(log, dev, start):
+    """(seq, acl handle, cis handle, cig id, cis id) of the LE CIS Request events of controller `dev`."""
+    out = []
+    for seq, d, direction, pkt, _t in log[start:]:
+        if d == dev and direction == 'c2h' and pkt[0] == 4 and pkt[1] == 0x3E and len(pkt) >= 10 and pkt[3] == 0x1A:
+            out.append((seq, (pkt[4] | pkt[5] << 8) & 0x0FFF, (pkt[6] | pkt[7] << 8) & 0x0FFF, pkt[8], pkt[9]))
+    return out
+
+
+async def hist_cis(case, r: R):
+    """One CIS handle used several times: created, accepted, disconnected, created again, and the ACL connection
+    lost (by either side) while the peer's host has not answered the request."""
+    from bumble import hci
+    from vlib import rig as vrig
+    rng = random.Random(case['seed'] ^ 0xC15)
+    vrig.seed_entropy(case['seed'])
+    delay = rng.choice([0, 0, 1, 3])
+    rg = vrig.Rig(2, seed=case['seed'], max_delay=delay)
+    capability = apply_capability(rg, case.get('cap'))
+    await rg.power_on()
+    r.ev('hist_cis_histories')
+    hist = []
+
+    def ctx():
+        return f'{capability}; history {hist}'
+
+    try:
+        cc, pc = await rg.connect_le(0, 1)
+        await rg.quiesce()
+        ids = rng.sample([0, 1, 2, 5, 0xEF], rng.choice([1, 1, 2]))
+        n = len(ids)
+        got = None
+        mark = len(rg.hci_log)
+        try:
+            rp = await vloop.vwait(rg.hosts[0].send_sync_command(hci.HCI_LE_Set_CIG_Parameters_Command(
+                cig_id=rng.choice([0, 1, 3]), sdu_interval_c_to_p=10000, sdu_interval_p_to_c=10000, worst_case_sca=0, packing=0,
+                framing=0, max_transport_latency_c_to_p=10, max_transport_latency_p_to_c=10, cis_id=list(ids),
+                max_sdu_c_to_p=[100] * n, max_sdu_p_to_c=[100] * n, phy_c_to_p=[1] * n, phy_p_to_c=[1] * n, rtn_c_to_p=[1] * n,
+                rtn_p_to_c=[1] * n)), 120)
+            handles = list(rp.connection_handle)
+        except Exception as ex:
+            r.ev('cig_setup_refused')
+            r.add_extra_list('cig_errors', f'{type(ex).__name__}: {ex}')
+            return
+        hist.append(('set-cig', [hex(h) for h in handles]))
+        hclass = 'first-create'
+        rounds = rng.choice([2, 3, 3, 4])
+        for rnd in range(rounds):
+            last = rnd == rounds - 1
+            what = rng.choice(['accept', 'accept', 'peer-drops-acl-before-accept', 'local-drops-acl-before-accept']
+                              if rnd else ['accept', 'accept', 'accept', 'peer-drops-acl-before-accept'])
+            use = rng.sample(handles, rng.randint(1, len(handles)))
+            mark = len(rg.hci_log)
+            key = f'hist/cis/{hclass}/{what}'
+            got = await issue_checked(r, rg, 0, hci.HCI_LE_Create_CIS_Command(
+                cis_connection_handle=use, acl_connection_handle=[cc.handle] * len(use)), key, ctx, foreign=False)
+            if got is None:
+                return
+            hist.append(('create-cis', [hex(h) for h in use], f'status {got[1]}', hclass))
+            if got[0] != 'cs' or got[1] != 0:
+                r.ev('cis_create_refused')
+                return
+            r.ev('pending_procedures_followed')
+            r.ev('hist_cis_creates_followed')
+            if rnd:
+                r.ev('hist_cis_created_again')
+            reqs = cis_requests(rg.hci_log, 1, mark)
+            if what == 'accept':
+                for _seq, _acl, ph, _cig, _cis in reqs:
+                    m2 = len(rg.hci_log)
+                    a = await issue_checked(r, rg, 1, hci.HCI_LE_Accept_CIS_Request_Command(connection_handle=ph),
+                                            f'hist/cis-accept/{hclass}', ctx, foreign=False)
+                    if a is None:
+                        return
+                    if a[0] == 'cs' and a[1] == 0:
+                        r.ev('pending_procedures_followed')
+                        r.ev('cis_accepts_followed')
+                        ok = await wait_for_event(rg, lambda: any(e[2] == ph and e[0] > a[2]
+                                                                  for e in cis_established_events(rg.hci_log, 1, m2)), 60)
+                        r.ev('oracle_evals')
+                        if not ok:
+                            r.bad(f'conclude/never/hist/cis-accept/{hclass}',
+                                  f'LE Accept CIS Request for {ph:#06x} answered PENDING, no LE CIS Established for it; {ctx()}')
+            else:
+                r.ev('hist_cis_acl_lost_before_accept')
+                if rnd:
+                    r.ev('hist_cis_created_again_acl_lost_before_accept')
+                dropper = pc if what.startswith('peer') else cc
+                await vloop.vwait(dropper.disconnect())
+                await rg.quiesce()
+                hist.append(('acl-disconnected', what))
+            # every CIS handle accepted as pending is concluded by an LE CIS Established event carrying it
+            await wait_for_event(rg, lambda: all(any(e[2] == h and e[0] > got[2] for e in cis_established_events(rg.hci_log, 0, mark))
+                                                 for h in use), 60 if what != 'accept' or reqs else 10)
+            evs = [e for e in cis_established_events(rg.hci_log, 0, mark) if e[0] > got[2]]
+            established = []
+            for h in use:
+                r.ev('cis_handles_followed')
+                r.ev('oracle_evals')
+                mine = [e for e in evs if e[2] == h]
+                if not mine:
+                    others = [(str(e[1]), hex(e[3])) for e in completions(rg.hci_log, 0, mark)]
+                    r.bad(f'conclude/never/{key}',
+                          f'LE Create CIS for {[hex(x) for x in use]} was answered PENDING ({what}); no LE CIS Established event '
+                          f'carries handle {h:#06x}; other completion events of the central: {others}; {ctx()}')
+                    return
+                if len(mine) > 1:
+                    r.bad(f'conclude/twice/{key}', f'{len(mine)} LE CIS Established events for {h:#06x}; {ctx()}')
+                if what != 'accept':
+                    r.ev('oracle_evals')
+                    if mine[0][1] == 0:
+                        r.bad(f'conclude/success-without-peer/{key}',
+                              f'LE CIS Established reports SUCCESS for {h:#06x} although the ACL connection went away before the '
+                              f'peer accepted; {ctx()}')
+                elif mine[0][1] == 0:
+                    established.append(h)
+            if last:
+                break
+            if what == 'accept':
+                # tear the CIS down: Disconnect by either side, or the ACL connection goes away under it
+                how = rng.choice(['central-disconnects-cis', 'peripheral-disconnects-cis', 'acl-lost'])
+                if how == 'acl-lost' or not established:
+                    await vloop.vwait(rng.choice([cc, pc]).disconnect())
+                    await rg.quiesce()
+                    hist.append(('acl-disconnected', 'with-cis-up'))
+                    hclass = 'created-again-after-acl-loss'
+                    cc, pc = await rg.connect_le(0, 1)
+                    await rg.quiesce()
+                    hist.append(('acl-connected-again',))
+                else:
+                    for h in established:
+                        m3 = len(rg.hci_log)
+                        if how.startswith('central'):
+                            dev, dh = 0, h
+                        else:
+                            ph = [q[2] for q in reqs if (q[3], q[4]) in {(c[3], c[4]) for c in reqs}]
+                            # the peripheral's handle of this CIS: the request for the same position in the command
+                            idx = use.index(h)
+                            dev, dh = 1, (reqs[idx][2] if idx < len(reqs) else None)
+                            if dh is None:
+                                dev, dh = 0, h
+                        d = await issue_checked(r, rg, dev, hci.HCI_Disconnect_Command(connection_handle=dh, reason=0x13),
+                                                f'hist/cis-disconnect/{how}', ctx, foreign=False)
+                        if d is None:
+                            return
+                        if d[0] == 'cs' and d[1] == 0:
+                            r.ev('pending_procedures_followed')
+                            ok = await wait_for_event(rg, lambda: any(e[2] == dh and e[0] > d[2]
+                                                                      for e in disconnection_events(rg.hci_log, dev, m3)), 60)
+                            r.ev('oracle_evals')
+                            if not ok:
+                                r.bad(f'conclude/never/hist/cis-disconnect/{how}',
+                                      f'Disconnect for the established CIS {dh:#06x} answered PENDING, no Disconnection Complete; {ctx()}')
+                        hist.append(('cis-disconnected', hex(h), how))
+                    await rg.quiesce()
+                    hclass = 'created-again-after-cis-disconnect'
+            else:
+                hclass = 'created-again-after-acl-loss'
+                cc, pc = await rg.connect_le(0, 1)
+                await rg.quiesce()
+                hist.append(('acl-connected-again',))
+    except vloop.Hang:
+        r.bad('hang/hist/cis', f'a connect() / disconnect() of the scenario was still pending at T_v; {ctx()}')
+    for where, ex in rg.exceptions:
+        if where.startswith('c2h'):
+            r.ev('host_side_exceptions_ignored')    # raw CIS commands behind the Devices' backs
+            continue
+        r.bad('answer/exception-later/hist/cis', f'{where}: {ex}; {ctx()}')
+    r.sig('hist-cis', str(case.get('cap')), tuple(h[0] + ':' + str(h[-1]) for h in hist))
+    r.sched.add(rg.schedule_signature)
+    r.evals()
+    r.sample = {'kind': 'hist', 'family': 'cis', 'capabilities': capability, 'history': [list(map(str, h)) for h in hist][:10]}
+
+
+async def hist_acl(case, r: R):
+    """LE connection creation by raw commands, several times between the same two controllers: created, disconnected
+    (by either side), created again while the peer is silent (cancelled), created again when it advertises."""
+    from bumble import hci
+    from vlib import rig as vrig
+    rng = random.Random(case['seed'] ^ 0xAC1)
+    vrig.seed_entropy(case['seed'])
+    delay = rng.choice([0, 0, 1, 3])
+    rg = vrig.Rig(2, seed=case['seed'], max_delay=delay)
+    capability = apply_capability(rg, case.get('cap'))
+    ext = rng.random() < 0.4
+    if ext:
+        rg.controllers[0].le_features = rg.controllers[0].le_features | hci.LeFeatureMask.LE_EXTENDED_ADVERTISING
+    await rg.power_on()
+    r.ev('hist_acl_histories')
+    hist = []
+    peer = rg.devices[1]
+    pub = rng.random() < 0.3
+
+    def ctx():
+        return f'{capability}; history {hist}'
+
+    def create_cmd():
+        target = peer.public_address if pub else peer.random_address
+        if ext:
+            return hci.HCI_LE_Extended_Create_Connection_Command(
+                initiator_filter_policy=0, own_address_type=rng.choice([0, 1]), peer_address_type=target.address_type & 1,
+                peer_address=target, initiating_phys=1, scan_intervals=[96], scan_windows=[96], connection_interval_mins=[12],
+                connection_interval_maxs=[24], max_latencies=[0], supervision_timeouts=[72], min_ce_lengths=[0], max_ce_lengths=[0])
+        return hci.HCI_LE_Create_Connection_Command(
+            le_scan_interval=96, le_scan_window=96, initiator_filter_policy=0, peer_address_type=target.address_type & 1,
+            peer_address=target, own_address_type=rng.choice([0, 1]), connection_interval_min=12, connection_interval_max=24,
+            max_latency=0, supervision_timeout=72, min_ce_length=0, max_ce_length=0)
+
+    async def advertise():
+        await vloop.vwait(peer.start_advertising(
+            auto_restart=False, own_address_type=hci.OwnAddressType.PUBLIC if pub else hci.OwnAddressType.RANDOM,
+            advertising_interval_min=40, advertising_interval_max=40))
+
+    hclass = 'first-create'
+    try:
+        for rnd in range(rng.choice([2, 3, 4])):
+            what = rng.choice(['peer-advertises', 'peer-advertises', 'peer-silent-cancel', 'peer-advertises-late'])
+            if what == 'peer-advertises':
+                await advertise()
+            mark = len(rg.hci_log)
+            key = f'hist/le-create-connection/{hclass}/{what}'
+            got = await issue_checked(r, rg, 0, create_cmd(), key, ctx, foreign=False)
+            if got is None:
+                return
+            hist.append(('le-create-connection', what, f'status {got[1]}', hclass))
+            if got[0] != 'cs' or got[1] != 0:
+                r.ev('oracle_evals')
+                r.bad(f'conclude/blocked/{key}', f'LE Create Connection was refused with status {got[1]} although no attempt is '
+                                                 f'pending and no connection to that peer exists; {ctx()}')
+                return
+            r.ev('pending_procedures_followed')
+            r.ev('hist_acl_creates_followed')
+            if rnd:
+                r.ev('hist_acl_created_again')
+            if what == 'peer-silent-cancel':
+                await asyncio.sleep(rng.choice([0, 1, 10]))
+                c = await issue_checked(r, rg, 0, hci.HCI_LE_Create_Connection_Cancel_Command(),
+                                        f'hist/le-create-connection-cancel/{hclass}', ctx, foreign=False)
+                if c is None:
+                    return
+                await asyncio.sleep(1)
+            elif what == 'peer-advertises-late':
+                await asyncio.sleep(rng.choice([0, 1, 10]))
+                await advertise()
+            ok = await wait_for_event(rg, lambda: any(e[0] > got[2] for e in le_connection_completes(rg.hci_log, 0, mark)), 60)
+            done = [e for e in le_connection_completes(rg.hci_log, 0, mark) if e[0] > got[2]]
+            r.ev('oracle_evals', 2)
+            if not done:
+                r.bad(f'conclude/never/{key}', f'LE Create Connection answered PENDING ({what}); no LE Connection Complete event '
+                                               f'follows; {ctx()}')
+                return
+            if len(done) > 1:
+                r.bad(f'conclude/twice/{key}', f'{len(done)} LE Connection Complete events for one attempt; {ctx()}')
+            if what == 'peer-silent-cancel':
+                if done[0][1] == 0:
+                    r.bad(f'conclude/success-without-peer/{key}', f'a cancelled attempt to a silent peer completed with SUCCESS; {ctx()}')
+                hclass = 'created-again-after-cancel'
+                continue
+            if done[0][1] != 0:
+                r.bad(f'conclude/failed-with-peer-present/{key}',
+                      f'the peer advertises the requested address, LE Connection Complete carries status {done[0][1]:#x}; {ctx()}')
+                return
+            handle = done[0][2]
+            await rg.quiesce()
+            pconns = [c for c in peer.connections.values()]
+            # tear down by either side, by raw Disconnect (device 0) or through the peer's Device
+            m2 = len(rg.hci_log)
+            by = rng.choice(['central', 'peripheral']) if pconns else 'central'
+            if by == 'central':
+                d = await issue_checked(r, rg, 0, hci.HCI_Disconnect_Command(connection_handle=handle, reason=0x13),
+                                        f'hist/disconnect/by-central/{hclass}', ctx, foreign=False)
+                if d is None:
+                    return
+            else:
+                await vloop.vwait(pconns[0].disconnect())
+            ok = await wait_for_event(rg, lambda: any(e[2] == handle for e in disconnection_events(rg.hci_log, 0, m2)), 60)
+            r.ev('pending_procedures_followed')
+            r.ev('oracle_evals')
+            if not ok:
+                r.bad(f'conclude/never/hist/disconnect/by-{by}/{hclass}',
+                      f'the connection {handle:#06x} was disconnected by the {by}; the central controller never reported '
+                      f'Disconnection Complete; {ctx()}')
+                return
+            hist.append(('disconnected', f'by-{by}'))
+            hclass = 'created-again-after-disconnect'
+    except vloop.Hang:
+        r.bad('hang/hist/acl', f'a call of the scenario was still pending at T_v; {ctx()}')
+    for where, ex in rg.exceptions:
+        if where == 'c2h0':
+            r.ev('host_side_exceptions_ignored')    # raw connection commands behind Device 0's back
+            continue
+        r.bad('answer/exception-later/hist/acl', f'{where}: {ex}; {ctx()}')
+    r.sig('hist-acl', ext, pub, str(case.get('cap')), tuple(h[:2] for h in hist))
+    r.sched.add(rg.schedule_signature)
+    r.evals()
+    r.sample = {'kind': 'hist', 'family': 'acl', 'capabilities': capability, 'history': [list(map(str, h)) for h in hist][:10]}
+
+
 def run_case(case, r: R):
     k = case['kind']
     if k == 'sweep':
@@ -1293,6 +2361,10 @@ def run_case(case, r: R):
         return cig_case(case, r)
     if k == 'train':
         return train_case(case, r)
+    if k == 'advstate':
+        return advstate_case(case, r)
+    if k == 'hist':
+        return hist_case(case, r)
     return proc_case(case, r)
 
 
@@ -1302,7 +2374,11 @@ LEVEL_TEXT = ('Offline checkers over the tapped HCI log: exactly-one-reply per c
               'own-opcode delivery under 2-16 concurrent callers with delayed pipes, 24 scripted procedure '
               'scenarios, generated CIG configuration histories (every CIS handle accepted as pending concluded by an '
               'event carrying that handle, on both sides) and generated fragment trains of advertising / scan response / '
-              'periodic advertising data (each command answered once under its own opcode). Sampling of parameters, '
+              'periodic advertising data (each command answered once under its own opcode), generated sequences of '
+              'advertising / scanning / connection / ISO commands in states where a precondition is missing (set without '
+              'address or parameters, removed, enabled twice, nothing pending), and procedure histories (establish, tear '
+              'down, establish again, ACL lost before completion) for CIS, LE connection creation and feature reads issued by '
+              'either role with one capability bit removed on either controller. Sampling of parameters, '
               'histories and schedules; not proof.')
 LEVEL_NOTE = ('Trusted: vlib/ref_hci.py generator/encoder (from C01), the event parser and PROCEDURES table in '
               'checks/c03.py, rig taps, virtual-time loop.')
